@@ -59,6 +59,7 @@ def runOracle (line : String) : String :=
   let rest := (case_.drop 1).toString
   match kind with
   | 'D' => oracleLookup rest real
+  | 'd' => oracleLookup rest real
   | 'N' => oracleEncodeCs rest real
   | 'H' => oracleHigh rest real
   | 'Y' => oracleGrey rest real
